@@ -258,7 +258,7 @@ def gen_cases(rng, tier):
             n = max(6, per // 3) if heavy else per
             k = 0
             while k < n:
-                c = OC.gen_case(rng, name, full, e.sir, isolated=e.isolated and rng.random() < 0.3, modes=e.modes, nmax=e.nmax, discrete=bool(e.discrete))
+                c = OC.gen_case(rng, name, full, e.sir, isolated=e.isolated and rng.random() < 0.35, force_iso=True, modes=e.modes, nmax=e.nmax, discrete=bool(e.discrete))
                 if any(x in name for x in NODE_LEVEL) and rng.random() < 0.5:
                     nl = list(range(len(c['nodes']))); rng.shuffle(nl); c['nodelist'] = nl
                 if not in_domain(c, OC.Oracle(c, e.sir)):
